@@ -4,7 +4,7 @@ exception Bad of string
 
 let big = 999999999
 let ion s = let i = int_of_string s in n_of_int (if i < 0 then big else i)
-let ionat s = let i = int_of_string s in nat_of_int (if i < 0 then big else i)
+let ionat s = let i = int_of_string s in nat_of_int (if i < 0 || i > 60000 then 60000 else i)  (* unary nat: keep the sentinel small *)
 let ioz s = z_of_string s
 
 let cstate_of_int = function
